@@ -216,7 +216,8 @@ def run_one(h, target_dir, tier, log_dir):
     res["failed"] = [{"check": c["name"], "desc": c["desc"], "loc": c["loc"]} for c in failed]
     nfail_parsed = len(failed)
     if parsed["summary"] is not None and (parsed["summary"][0] != nfail_parsed or
-                                           parsed["summary"][1] != len(parsed["asserts"])):
+                                           parsed["summary"][1] not in (len(parsed["asserts"]),
+                                                                        len(parsed["asserts"]) + len(parsed["covers"]))):
         res.update(status="inconclusive", reason=f"output parse mismatch: summary {parsed['summary']} vs parsed "
                    f"{nfail_parsed} failed of {len(parsed['asserts'])}")
         return res
@@ -252,7 +253,7 @@ def run_all(hs, tier, jobs, log_dir, progress=None):
     lock = threading.Lock()
 
     def worker(i):
-        td = os.path.join(BUILD, f"w{i}")
+        td = os.path.join(BUILD, f"w{os.environ.get('VERIF_BUILD_TAG', '')}{i}")
         while True:
             try:
                 h = q.get_nowait()
